@@ -1,9 +1,16 @@
 import CryoCat.Model.C04_Star
 import CryoCat.Lemmas.C04
-import CryoCat.Props.C02
+import CryoCat.Lemmas.C02_Export
 /-! C04 — bridge to C02: the concrete STAR layer `starWrite` / `starRead` (`Model/C04_Star.lean`)
 round-trips STOPGAP tables, as a consequence of `C02.typed_roundtrip`. The hypotheses are stated
 explicitly here (`Props/C04.lean` packs them into `StarWF`).
+
+The C02 theorem is taken from `Lemmas/C02_Export.lean` (`C02.Export.typed_roundtrip`; same statement as
+`C02.typed_roundtrip` of `Props/C02.lean`, which re-exports it), NOT from `Props/C02.lean`: the latter also holds
+C02's translator obligations (`anchors_ok`, `*_documented` over every dump of `Gen/C02.lean`) and stops building when
+any of them breaks — e.g. for an edit of the label numbering, of `remove_lines`, of the comment handling — while the
+round trip C04 rests on is untouched; C04 must keep building then. Which regenerated literals of `Gen/C02.lean` the
+round trip genuinely depends on is listed in the header of `Lemmas/C02_Export.lean`.
 
 Outside the proof stay only the two parameters `ren` (value ↦ printed digits: pandas `round(6)` +
 Python `repr`) and `parse` (digits ↦ value: `pandas.to_numeric`); the cell conversion of the round
@@ -128,7 +135,7 @@ theorem starRead_starWrite (parse : C02.Word → β) :
     starRead parse spec (starWrite ren spec t)
       = some { cols := t.cols, rows := t.rows.map (fun r => r.map (Cell.map (fun v => parse (C02.cellText (ren v))))) } := by
   have hok := renderTable_ok ren spec t hren hspec hcols hlen htxt
-  have hrt := (C02.typed_roundtrip true [renderTable ren spec t]
+  have hrt := (C02.Export.typed_roundtrip true [renderTable ren spec t]
     (by intro b hb; rw [List.mem_singleton.1 hb]; exact hok) trivial).1
   have hk := renderTable_kinds ren spec t hren hrows hlen htxt hkind
   unfold starRead starWrite
